@@ -59,7 +59,7 @@ def declared(desc):
     return {p["name"]: (p.get("weight") if p.get("weight") is not None else 1) for p in desc["prods"]}
 
 
-def check_weights(desc, built, g, model, rec, nth, first):
+def check_weights(desc, built, g, model, rec, nth, first, after_sibling=False):
     w = g.get_weights()
     decl = declared(desc)
     out = {}
@@ -87,9 +87,9 @@ def check_weights(desc, built, g, model, rec, nth, first):
         if tot == 0:
             continue
         if abs(sum(got) - 1.0) > 1e-9:
-            rec.violation(f"weights:not-normalised-per-rule:{'first' if nth == 1 else 'repeat'}", wit)
+            rec.violation(f"weights:not-normalised-per-rule:{'first' if nth == 1 else ('after-a-sibling-grammar' if after_sibling else 'repeat')}", wit)
         elif any(abs(x - dd / tot) > 1e-9 for x, dd in zip(got, d)):
-            rec.violation(f"weights:ratios-not-preserved:{'first' if nth == 1 else 'repeat'}", wit)
+            rec.violation(f"weights:ratios-not-preserved:{'first' if nth == 1 else ('after-a-sibling-grammar' if after_sibling else 'repeat')}", wit)
         else:
             rec.distinct_add([d, [round(x, 12) for x in got]])
         out[a.__name__] = got
@@ -97,7 +97,7 @@ def check_weights(desc, built, g, model, rec, nth, first):
         rec.count("re_extractions")
         for k, v in out.items():
             if k in first and any(abs(x - y) > 1e-9 for x, y in zip(v, first[k])):
-                rec.violation("weights:changed-by-re-extraction", {"grammar": desc["name"], "rule": k, "first": first[k], "now": v, "extraction": nth})
+                rec.violation("weights:changed-by-re-extraction" + (":after-a-sibling-grammar" if after_sibling else ""), {"grammar": desc["name"], "rule": k, "first": first[k], "now": v, "extraction": nth})
     return out
 
 
@@ -169,7 +169,28 @@ def run_case(case, rec):
             return
         first = None
         g = None
+        sibling_done = False
         for nth in range(1, case["extractions"] + 1):
+            if nth == 2 and case["i"] % 2 == 0:
+                # another grammar over a SUBSET of the same classes is extracted in between (a second model being fitted,
+                # a sub-language): the grammar under observation, extracted again, must come out as declared
+                drop = set()
+                for a in desc["abstracts"]:
+                    ps = [p for p in desc["prods"] if p.get("parent") == a["name"]]
+                    if len(ps) >= 2:
+                        drop.add(ps[-1]["name"])
+                sub = [c for c in built.classes if c.__name__ not in drop]
+                if drop and (built.start in sub or refmodel.is_abs(built.start)):
+                    try:
+                        from geneticengine.grammar.grammar import extract_grammar
+
+                        extract_grammar(sub, built.start)
+                        sibling_done = True
+                        rec.count("sibling_extractions_in_between")
+                    except core.CaseTimeout:
+                        raise
+                    except BaseException:  # noqa - the sibling's own fate is not judged here
+                        rec.count("sibling_extraction_raised")
             try:
                 g = grammars.extract(built)
             except core.CaseTimeout:
@@ -177,7 +198,7 @@ def run_case(case, rec):
             except BaseException as e:  # noqa
                 rec.violation(f"extract:raises:{type(e).__name__}@{core.exc_site(e)}", {"grammar": desc["name"], "extraction": nth, "error": core.short(e)})
                 return
-            cur = check_weights(desc, built, g, model, rec, nth, first)
+            cur = check_weights(desc, built, g, model, rec, nth, first, after_sibling=sibling_done and nth >= 2)
             if first is None:
                 first = cur
         if case["i"] % 40 == 0:
